@@ -51,6 +51,25 @@ pub fn explorer_plan(prop: &str, thorough: bool) -> Option<Plan> {
                 rule: "case = seeded configuration (metric, dims, ids, values) + history ((add|overwrite|append|del|clear)* build)+; after every successful build the raw LMDB dump is decoded by the reference decoder and walked (C01 oracle); non-trivial+distinct = distinct forest shape hashes (split/bucket/item-child structure with depths and bucket sizes) among forests that contain at least one split",
             }
         }
+        "C11" => {
+            // end-to-end leg of C11: the distances a *search* reports, on indexes written through every write path
+            // (add, append, overwrite) and all 7 metrics, against the f64 definition
+            p.checks = Checks { exact: true, accuracy: true, ..Default::default() };
+            p.values = vec![Values::Grid, Values::Uniform, Values::Uniform, Values::Mixed(false)];
+            p.queries_per_build = 4;
+            p.rounds = (1, 3);
+            p.max_items = 120;
+            p.ops_per_round = (1, 60);
+            p.p_append = 0.25;
+            p.dims.extend_from_slice(&[257, 300]);
+            Plan {
+                profile: p,
+                cases: (2400, 40000),
+                required: &["exact_queries", "builds_ok", "op_append"],
+                custom_gen: None,
+                rule: "end-to-end leg: explorer histories in which a quarter of the writes go through append_item; after every build 4 exhaustive queries (by_item and by_vector) whose reported distances are compared with the f64 definition over the shadow model",
+            }
+        }
         "C02" => {
             p.checks = Checks { exact: true, accuracy: true, ..Default::default() };
             // a fifth of the cases mix magnitudes from 1e-9 to 1e6 inside one index (a tiny item next to a large query)
